@@ -522,13 +522,29 @@ fn judge(p: &Plan, api: Api, tp: &TapePlan, o: &Obs, out: &mut RunOut, replay: &
             return;
         }
         (Res::Budget, _) => return, // infallible front-end ran off the tape
-        (Res::Panic(pi), _) => {
+        (Res::Panic(pi), fault) => {
             out.viol(
                 "C11/unexpected-panic",
                 sig(p, &format!("{:?}:{}", api, pi.location)),
                 format!("panic at {}: {}", pi.location, pi.message),
                 replay(),
             );
+            // the sampling property itself: with admissible arguments the call returns a value (or, on the fallible
+            // front-end, the RNG's own error) — an unwind is neither
+            match fault {
+                None => out.viol(
+                    "C19/error-spurious",
+                    sig(p, &format!("{:?}:panic", api)),
+                    format!("bit_length={} precision={}: admissible arguments and a healthy stream, but the call unwound at {} ({}) instead of returning a value", p.bit_length, p.precision, pi.location, pi.message),
+                    replay(),
+                ),
+                Some(f) => out.viol(
+                    "C19/error-kind",
+                    sig(p, &format!("{:?}:panic-on-rng-error", api)),
+                    format!("the RNG failed at call {} and the fallible API unwound at {} ({}) instead of returning that error", f.call, pi.location, pi.message),
+                    replay(),
+                ),
+            }
             return;
         }
         (Res::ErrPrec | Res::ErrTooLarge, _) => {
